@@ -6,7 +6,9 @@ package gemmill
 import (
 	"github.com/spf13/viper"
 
+	"github.com/dappledger/AnnChain/gemmill/blockchain"
 	"github.com/dappledger/AnnChain/gemmill/p2p"
+	"github.com/dappledger/AnnChain/gemmill/state"
 	"github.com/dappledger/AnnChain/gemmill/types"
 )
 
@@ -14,3 +16,10 @@ import (
 func VerifAuthByCA(conf *viper.Viper, ppValidators **types.ValidatorSet) func(*p2p.NodeInfo) error {
 	return authByCA(conf, ppValidators)
 }
+
+// VerifState returns the state machine state the engine currently holds
+// (after NewAngine/ConnectApp this is the state recovered from disk).
+func (a *Angine) VerifState() *state.State { return a.stateMachine }
+
+// VerifBlockStore returns the engine's block store.
+func (a *Angine) VerifBlockStore() *blockchain.BlockStore { return a.blockstore }
